@@ -17,6 +17,9 @@
 pub mod key_id_storage;
 pub mod key_storage;
 pub mod storage;
+#[cfg(identity_rs_verif)]
+#[allow(missing_docs)]
+pub mod verif_hooks;
 
 pub use key_id_storage::*;
 pub use key_storage::public_modules::*;
